@@ -11,12 +11,14 @@ PROPS = {
         technique="property-based testing (rapid). Tier A: the nic.Conf values returned by the real generate*Cfg functions of all four datapaths "
                   "are loaded into an independent reference FIB (rules by priority -> table -> longest prefix -> oif/gateway, nic.Setup's ensure/replace semantics) "
                   "and the routing intent is decided by lookups. Tier B: real Setup/Check/GenericTearDown+Teardown of the policy-route (veth) and exclusive-ENI datapaths "
-                  "in private network namespaces (a veth pair stands in for the ENI), judged by the kernel's own route lookups (RTM_GETROUTE with iif/src/oif) and by "
+                  "in private network namespaces (a veth pair stands in for the ENI), plus the host-side (init namespace) half of the ipvlan datapath "
+                  "(real generateENICfg/ContCfg/SlaveLinkCfg + nic.Setup, createSlaveIfNotExist/setupInitNamespace up to the tc filters, real IPvlanDriver.Teardown; "
+                  "veths stand in for the ipvl_<eni> slave and the pod link), judged by the kernel's own route lookups (RTM_GETROUTE with iif/src/oif) and by "
                   "differences of rule/route/link dumps around every teardown",
         rule="Tier A cases: datapath (policy, ipvlan, exclusive, vlan) x family (v4, v6, dual) x trunk x 1..4 pods with 1..2 interfaces each (MultiNetwork, exactly one carries "
              "DefaultRoute as the daemon guarantees) on 1..2 ENIs (own ENI per interface for exclusive), drawn link indexes (steps up to 70000), addresses in 4- and 16-byte form, "
              "prefix lengths 8..32/8..128, shared or separate subnets, service CIDRs, 0..3 host-stack CIDRs, 0..3 extra routes per interface with/without gateway. "
-             "Tier B cases: policy or exclusive datapath, family, 1..3 pods on one ENI (exclusive: own ENI stand-in each, optionally a second interface eth1), 2..9 operations "
+             "Tier B cases: policy, exclusive or ipvlan (host side) datapath, family, 1..3 pods on one ENI (exclusive: own ENI stand-in each, optionally a second interface eth1), 2..9 operations "
              "setup/check/teardown in drawn order incl. teardown twice and teardown without setup, optional decoy rules (same priorities, wider prefixes containing pod addresses), "
              "TeardownCfg with/without host veth name and with the ENI index real / 0 / stale-positive. Faulty pre-states are drawn too: before Setup the host namespace may still hold "
              "stale prio-512/2048 rules for the pod's own address pointing into another interface's table, or the previous owner's veth with a host route for the pod's IPv4 /32; "
@@ -39,14 +41,16 @@ PROPS = {
         ],
         level_text="generated configurations and setup/teardown histories checked against an independent policy-routing evaluator (all four datapaths) and against the running kernel "
                    "(policy-route and exclusive-ENI datapaths); exploration, not proof",
-        level_note="ipvlan and vlan datapaths are checked through their generators only: their Setup/Teardown bodies (slave creation, tc redirect filters, VLAN tagging, route removal by "
-                   "teardownInitNamespace) cannot execute in this kernel (no ipvlan/vlan/dummy devices; act_vlan missing, so trunk mode is tier A only). The vlan datapath has no host-side link, "
+        level_note="the vlan datapath is checked through its generator only; of the ipvlan datapath the kernel tier runs the init-namespace half (slave configuration, host routes, "
+                   "Teardown/teardownInitNamespace) with veth stand-ins, while ipvlan.Setup (link creation), IPvlanDriver.Check and the tc redirect filters of setupFilters cannot execute in this kernel "
+                   "(no ipvlan/vlan/dummy devices; the filter add is refused; without an IPv4 service CIDR the steps before setupFilters are mirrored; IPv6 host-stack CIDRs are not passed to the ipvlan "
+                   "datapath because setupFilters rejects them); act_vlan is missing, so trunk mode is tier A only. The vlan datapath has no host-side link, "
                    "nothing is asserted for it in the host namespace. Tier A trusts the harness's FIB model and mirrors which generator each Setup applies to which link (read from the Setup bodies). "
                    "In tier B the ENI stand-in is a veth, so GenericTearDown deletes it instead of moving it back: for exclusive ENI only setup routing and removal of the host-side peer are asserted, "
                    "not the return of the ENI. tc state (vlan tag filters, priority filters, bandwidth) is not part of the dumps. Packets are not sent; lookups decide.",
         tests=[
             dict(unit="c13pure", test="TestVerifC13Routing", quick=20000, thorough=1000000),
-            dict(unit="c13kernel", test="TestVerifC13Kernel", quick=320, thorough=5000, timeout_thorough=1500),
+            dict(unit="c13kernel", test="TestVerifC13Kernel", quick=400, thorough=5000, timeout_thorough=1500),
             dict(unit="c13pure", test="TestVerifC13KnownOifRule", quick=1, thorough=1, shards=1),
             dict(unit="c13kernel", test="TestVerifC13KnownExclusiveEth1", quick=1, thorough=1, shards=1),
         ],
